@@ -270,7 +270,7 @@ impl Prop for C05 {
         "C05"
     }
     fn rule(&self) -> String {
-        "quilt workspaces by construction: 1-8 files, 1-6 (thorough 12) patches of 1-4 file operations each (modify by random edit script with context 0-3, create incl. both-names form, delete, truncate, git rename +- edit, git mode change, second entry for a file), random header dialect per patch, -pN and -R in the series; a failing patch injected in 5 of 8 cases at any position in any non-empty subset of its files/hunks (no-match via a sentinel on a removed line, missing file, create over existing, delete mismatch); options: threads 1..16, --backup always/onfail/never/default, --backup-count, --mmap, verbosity, goal -a / none / N / <name>. Oracle: independent tree model T_k: exit 0 iff the requested range applied, tree (bytes+modes, rejects aside) == T_k, applied-patches == first k names, k == index of the first failing patch, rejects only for failing files of that patch, no crash. non-trivial = a failing patch inside the requested range that has >=2 file patches of which >=1 applies cleanly, or later patches exist; distinct = distinct case".into()
+        "quilt workspaces by construction: 1-8 files, 1-6 (thorough 12) patches of 1-4 file operations each (modify by random edit script with context 0-3, create incl. both-names form, delete, truncate, git rename +- edit, git mode change, second entry for a file), random header dialect per patch, -pN and -R in the series; a failing patch injected in 5 of 8 cases at any position in any non-empty subset of its files/hunks (no-match via a sentinel on a removed line, missing file, create over existing, delete mismatch, misordered hunks, target is a directory, renames that cannot be carried out: onto an existing file, of a missing file, of a file that already has the name, onto an empty file and undone; a second failing entry for the same file); names also spelled a//b, a/./b, ./a/b, /abs/a/b with -pN, and bare with blanks + TAB; patches that delete a whole directory tree; longer stale rejects of an earlier push; options: threads 1..16, --backup always/onfail/never/default, --backup-count, --mmap, verbosity, goal -a / none / N (up to 2^64-1) / <name>. Oracle: independent tree model T_k: exit 0 iff the requested range applied, tree (bytes+modes, rejects aside) == T_k, applied-patches == first k names, k == index of the first failing patch, rejects only for failing files of that patch, no crash. non-trivial = a failing patch inside the requested range that has >=2 file patches of which >=1 applies cleanly, or later patches exist; distinct = distinct case".into()
     }
     fn assumptions(&self) -> Vec<String> {
         vec![
@@ -298,10 +298,10 @@ impl Prop for C13 {
         "C13"
     }
     fn rule(&self) -> String {
-        "failing quilt workspaces by construction (see C05): failures in any subset of the failing patch's files and hunks, reasons no-match / missing file / create over existing / delete mismatch, failing files spread over workers, threads 1..16. Oracle: the generator knows which hunks cannot apply; after the push the set of *.rej paths equals {<file>.rej for files of the failing patch with >=1 failing hunk}, each read with the harness's own unified-diff reader holds exactly the failed hunks in order with original old/new lines and start numbers, is accepted by the tool's parser and names the file; no other reject exists. non-trivial = the failing patch has file patches with different outcomes, or a file with hunks of different outcomes; distinct = distinct case".into()
+        "failing quilt workspaces by construction (see C05): failures in any subset of the failing patch's files and hunks, reasons no-match / missing file / create over existing / delete mismatch / misordered, two failing entries for one file (their hunks go into one reject, in patch order), longer stale rejects of an earlier push at the same paths, failing files spread over workers, threads 1..16. Oracle: the generator knows which hunks cannot apply; after the push the set of *.rej paths equals {<file>.rej for files of the failing patch with >=1 failing hunk}, each read with the harness's own unified-diff reader holds exactly the failed hunks in order with original old/new lines and start numbers, is accepted by the tool's parser and names the file; no other reject exists. non-trivial = the failing patch has file patches with different outcomes, or a file with hunks of different outcomes; distinct = distinct case".into()
     }
     fn assumptions(&self) -> Vec<String> {
-        vec!["a reject is expected exactly when its directory exists in the tree left by the applied patches (the property says 'if its directory exists')".into(), "file names needing C quoting are not generated here (covered by C12)".into()]
+        vec!["a reject is expected exactly when its directory exists in the tree left by the applied patches (the property says 'if its directory exists')".into(), "a stale reject at a path this push does not write must stay byte-identical".into()]
     }
     fn budget(&self, tier: Tier) -> (u32, usize) {
         (tier.pick(1500, 20000), 900)
